@@ -38,12 +38,13 @@ def main():
     args = parse_args("C04"); ck = Check("C04", args.tier); thorough = args.tier == "thorough"
     import ImageD11.unitcell as UC, ImageD11.grain as GR, ImageD11.indexing as IX, ImageD11.sinograms.tensor_map as TM, ImageD11.sinograms.point_by_point as PB
     inv3 = lambda m: pysym.inv3(np.asarray(m, dtype=object))
-    ck.encoded("ImageD11/unitcell.py:unitcell.__init__ (metric, reciprocal metric, B)", "ImageD11/grain.py:grain.UB/B/U/mt/rmt/unitcell", "ImageD11/indexing.py:ubitocellpars",
+    ck.encoded("ImageD11/unitcell.py:unitcell.__init__ (metric, reciprocal metric, B)", "ImageD11/grain.py:grain.UB/B/U/mt/rmt/unitcell", "ImageD11/indexing.py:ubitocellpars", "ImageD11/indexing.py:ubitoB (np.linalg.cholesky / inv as contract stubs)",
                "ImageD11/sinograms/tensor_map.py:ubi_to_mt/mt_to_unitcell/unitcell_to_b/ubi_and_b_to_u/fast_invert (gufunc py_func bodies)", "ImageD11/sinograms/point_by_point.py:ubi_to_unitcell/ubi_and_ucell_to_u (py_func)")
     ck.bound("unbounded: every cell (a,b,c>0, angles in (0,180), positive volume) and every right-handed real UBI; one voxel per query (gufunc kernels are per-voxel; broadcasting is numba's)")
     ck.assume("real-arithmetic model; cos/sin of the three cell angles are constrained pairs; cos(acos q)=q, sin(acos q)=sqrt(1-q^2) for |q|<=1 (arguments of acos are cosines of lattice angles)",
               "np.linalg.inv -> adjugate/determinant with det != 0 recorded as precondition; pi = exact rational of the double",
-              "indexing.ubitoB (cholesky) and xfab's Rodrigues vector are outside the claim; NaN inputs are checked concretely (all-NaN out)")
+              "indexing.ubitoB: np.linalg.cholesky(m) is the contract stub 'L lower triangular, positive diagonal, L.L^T = m' and np.linalg.inv(m) the contract stub 'X.m = m.X = I'; that the upper triangular factor with positive diagonal of the reciprocal metric is unique (so equals unitcell.B) is the textbook theorem (trusted)",
+              "xfab's Rodrigues vector is outside the claim; NaN inputs are checked concretely (all-NaN out)")
     tmo = 60000 if thorough else 20000
 
     # ---------------------------------------------------------------- (a) the copies of the B construction agree; (b) B^T B = reciprocal metric
@@ -168,6 +169,55 @@ def main():
         def runU(part=part):
             r = run_U(); r["goals"] = r["goals"][part::4]; return r
         jobs.append(("U-orthogonal/%d" % part, runU, dict(replay=None, timeout_ms=120000 if thorough else 10000, stretch=True)))
+
+    # ---------------------------------------------------------------- indexing.ubitoB: Cholesky as a contract stub; the result must be THE Busing-Levy B of the lattice
+    def run_ubitoB():
+        u = sym_ubi(); chol = []; invs = []
+        class LA:
+            def __getattr__(s, k): return getattr(np.linalg, k)
+            def inv(s, m):
+                # contract stub: X with X.m = m.X = I (the inverse is unique; det != 0 is the recorded precondition)
+                m = np.asarray(m, dtype=object); k = len(invs); X = pysym.mat("inv%d_" % k)
+                d = T(pysym.det3(m)); CTX.hyp.append(d != 0); CTX.pre.append(d != 0)
+                for A in (np.dot(X, m), np.dot(m, X)):
+                    for i in range(3):
+                        for j in range(3): CTX.hyp.append(T(A[i, j]) == (1 if i == j else 0))
+                invs.append((m, X)); return X
+            def cholesky(s, m):
+                # contract stub: L lower triangular, positive diagonal, L.L^T = m
+                m = np.asarray(m, dtype=object); k = len(chol)
+                L = np.array([[var("L%d_%d%d" % (k, i, j)) if j <= i else 0.0 for j in range(3)] for i in range(3)], dtype=object)
+                LLt = np.dot(L, L.T)
+                for i in range(3):
+                    CTX.hyp.append(T(L[i, i]) > 0)
+                    for j in range(i, 3): CTX.hyp.append(T(LLt[i, j]) == T(m[i, j]))
+                chol.append((m, L)); return L
+        class NP2(pysym.NPProxy): linalg = LA()
+        with symbolize(IX, extra=[(IX, "np", NP2())]): Bx = np.asarray(IX.ubitoB(u), dtype=object)
+        mt = np.dot(u, u.T); BtB = np.dot(Bx.T, Bx)
+        goals = [("ubitoB lower triangle zero", z3.And(T(Bx[1, 0]) == 0, T(Bx[2, 0]) == 0, T(Bx[2, 1]) == 0)), ("ubitoB diagonal positive", z3.And(T(Bx[0, 0]) > 0, T(Bx[1, 1]) > 0, T(Bx[2, 2]) > 0))]
+        if len(chol) == 1:
+            # staged through the matrix C that the code hands to cholesky: B^T B = C and C . (ubi.ubi^T) = I  ==>  B^T B is the reciprocal metric
+            C = chol[0][0]; CM = np.dot(C, mt)
+            goals += [("ubitoB^T . ubitoB = the matrix factorised by cholesky [%d%d]" % (i, j), T(BtB[i, j]) == T(C[i, j])) for i in range(3) for j in range(i, 3)]
+            goals += [("the factorised matrix is the reciprocal metric: C . (ubi.ubi^T) = I [%d%d]" % (i, j), T(CM[i, j]) == (1 if i == j else 0)) for i in range(3) for j in range(3)]
+        else:
+            P = np.dot(BtB, mt)
+            goals += [("ubitoB^T . ubitoB . (ubi.ubi^T) = I [%d%d]" % (i, j), T(P[i, j]) == (1 if i == j else 0)) for i in range(3) for j in range(3)]
+        return dict(goals=goals, inputs={"u%d%d" % (i, j): T(u[i, j]) for i in range(3) for j in range(3)})
+    def replay_ubitoB(vals, label):
+        u = np.array([[vals["u%d%d" % (i, j)] for j in range(3)] for i in range(3)], float)
+        cands = [u] if np.linalg.det(u) > 1e-6 and np.abs(u).max() < 1e6 else []
+        cands.append(np.array([[3.0, 0.3, 0.0], [-0.2, 4.0, 0.5], [0.1, 0.0, 5.0]]))
+        for uu in cands:
+            Bx = IX.ubitoB(uu); Bg = GR.grain(uu).B
+            if not np.allclose(Bx, Bg, rtol=1e-7, atol=1e-9 * np.abs(Bg).max()):
+                return True, "indexing.ubitoB(ubi) = %s but grain(ubi).B = %s (ubi = %s); ubitoB^T.ubitoB.mt = %s" % (np.round(Bx, 6).tolist(), np.round(Bg, 6).tolist(), np.round(uu, 6).tolist(), np.round(Bx.T @ Bx @ (uu @ uu.T), 6).tolist())
+        return False, "ubitoB equals grain.B at the model point"
+    for part in range(3):
+        def runX(part=part):
+            r = run_ubitoB(); r["goals"] = r["goals"][part::3]; return r
+        jobs.append(("ubitoB/%d" % part, runX, dict(replay=replay_ubitoB, timeout_ms=tmo, keyfn=lambda n, l: "indexing.py:ubitoB:not-busing-levy")))
     harness.run_parallel(ck, jobs)
 
     # ---------------------------------------------------------------- TensorMap: cached derived maps follow the UBI map through any access history
